@@ -79,7 +79,7 @@ LANGS = ["en", "EN", "en-US", "en-us", "de", "fr-CA", "zh-Hant-TW", "x-priv", "s
 TYPED_CANON = [
     ("integer", ["0", "1", "-1", "42", "123456789012345678901234567890", "-7"]),
     ("decimal", ["0.0", "1.5", "-1.5", "0.1", "123.456", "100.0", "1", "0", "-0.0", "1.000"]),
-    ("double", ["0.0", "1.0", "-1.5", "10000000000.0", "1e-07", "inf", "-inf", "nan", "1.2345678901234568e+18", "10000001.0", "0.1"]),
+    ("double", ["0.0", "1.0", "-1.5", "10000000000.0", "1e-07", "INF", "-INF", "NaN", "1.2345678901234568e+18", "10000001.0", "0.1"]),
     ("float", ["0.0", "1.0", "2.5"]),
     ("boolean", ["true", "false"]),
     ("string", ["", "a", "a b", "x\"y"]),
@@ -101,7 +101,7 @@ TYPED_CANON = [
 # non-canonical but valid forms; round-trip compares through canonical()
 TYPED_NONCANON = [
     ("integer", ["+1", "007", "-0", "00"]), ("decimal", ["+1.50", ".5", "5."]),
-    ("double", ["1", "1e0", "1E5", "-.5e-3", "+1.0E+1", "1.2345678901234567E18", "0.0E0", "1.0E0", "1.0E-7", "INF", "-INF", "NaN"]),
+    ("double", ["1", "1e0", "1E5", "-.5e-3", "+1.0E+1", "1.2345678901234567E18", "0.0E0", "1.0E0", "1.0E-7", "+INF"]),
     ("float", ["1", "1.5e0", "2.5E0"]), ("boolean", ["1", "0"]),
     ("dateTime", ["2000-01-01T00:00:00.5", "2024-02-29T23:59:59Z"]),
     ("time", ["12:00:00Z"]),
